@@ -127,12 +127,15 @@ static void resolve(var p, struct item* o) {
 }
 
 /* filter predicates: a bit mask indexed by the item's value modulo 8 */
-static unsigned pmask[3]; static uint64_t cb_foreign;
+static unsigned pmask[3]; static uint64_t cb_foreign; static var pred_flag;
 static var pred_common(int slot, var x) {
   struct item o; resolve(x, &o);
   if (o.foreign) { cb_foreign++; return NULL; }
   int b = (int)(((o.val % 8) + 8) % 8);
-  return ((pmask[slot] >> b) & 1) ? x : NULL;
+  /* "anything except NULL" keeps the item: an accepted item of odd value is acknowledged with an object that is not the
+  ** item (a flag), an even one with the item itself - a view that hands on the predicate's answer yields FOREIGN */
+  if (!((pmask[slot] >> b) & 1)) return NULL;
+  return (o.val & 1) ? pred_flag : x;
 }
 static var pred0(var x) { return pred_common(0, x); }
 static var pred1(var x) { return pred_common(1, x); }
@@ -1804,6 +1807,7 @@ int main(int argc, char** argv) {
   vf_set_init(&outcomes, 4096);
   for (int b = 0; b < 4; b++) for (int i = 0; i < MAXN; i++) elemobj[b][i] = new_raw(Int, $I(16 * b + i));
   for (int i = 0; i < IMGPOOL; i++) imgobj[i] = new_raw(Int, $I(-1));
+  pred_flag = new_raw(Int, $I(-77));
 
   maxn = (int)vf_param_i("maxn", 6); if (maxn > MAXN) maxn = MAXN;
   amax = (int)vf_param_i("amax", 8);
